@@ -18,12 +18,12 @@ EXTRA_FLAGS = {"@poison": ["-DVQ_POISON"],
 MODEL = "own"
 ASSUMPTIONS = [
     "prior heap contents are modelled by a poisoning operator new (fills 00 / FF / AA / pseudo-random); stack contents and allocator addresses are not varied",
-    "memory safety is checked by AddressSanitizer/UndefinedBehaviourSanitizer runs of the harness on the generated and the listed degenerate inputs (a test, reported as such); the Coq theorems cover junk-independence of the modelled kernels, the bounds-checked re-statements of spmv/residual/CRS construction/transpose (coq/LowLevel.v, coq/LowLevelT.v), the array-level models with unwritten cells of sort_row/sort_rows, spgemm_saad, diagonal + plain_aggregates, tentative_prolongation (no null space) and the ilu0 constructor (coq/LowLevel2*.v) and the crs::own_data state machine (coq/Own.v) only",
-    "array-level models (C10-A2'): one thread (the OpenMP loops of spgemm_saad / plain_aggregates are modelled sequentially; a 3-thread run of the same cases is compared with the one-thread model as a test); int / ptrdiff_t are unbounded Z / nat (no overflow); std::vector<T>(n) and vector::resize are value-initialised, only new T[n] (crs::set_size / set_nonzeros, numa_vector(n, false)) yields unwritten cells; max_neib/reserve of plain_aggregates is not modelled; the double instantiation of ilu0 has no exact model line (self-consistency across heap fills and ASan only)",
+    "memory safety is checked by AddressSanitizer/UndefinedBehaviourSanitizer runs of the harness on the generated and the listed degenerate inputs (a test, reported as such); the Coq theorems cover junk-independence of the modelled kernels, the bounds-checked re-statements of spmv/residual/CRS construction/transpose (coq/LowLevel.v, coq/LowLevelT.v), the array-level models with unwritten cells of sort_row/sort_rows, spgemm_saad, diagonal + plain_aggregates, tentative_prolongation (no null space), the ilu0 constructor and skyline_lu after its ordering (coq/LowLevel2*.v) and the crs::own_data state machine (coq/Own.v) only",
+    "array-level models (C10-A2'): one thread (the OpenMP loops of spgemm_saad / plain_aggregates are modelled sequentially; a 3-thread run of the same cases is compared with the one-thread model as a test); int / ptrdiff_t are unbounded Z / nat (no overflow); std::vector<T>(n) and vector::resize are value-initialised, only new T[n] (crs::set_size / set_nonzeros, numa_vector(n, false)) yields unwritten cells; max_neib/reserve of plain_aggregates is not modelled; the double instantiations of ilu0 and skyline_lu have no exact model line (self-consistency across heap fills and ASan only); the permutation used by the skyline model is the extracted CuthillMcKee.cuthill_mckee (tied by C16)",
     "uninitialised output buffers: write-only outputs are numa_vector<double>(n, false) obtained from the poisoning operator new[]; 'bitwise identical' is judged on the printed 64-bit patterns of the result vectors under the fills 00 / FF (NaN pattern) / AA / pseudo-random",
     "crs::own_data (C10-A3): ptr/col/val are modelled as one block unit (set_nonzeros(n, need_values=false), which leaves val null, is outside the model); the tracking allocator of harness/drv_own.cpp sees operator new[]/delete[] only; object lifetimes are those of the driver's std::map<int, shared_ptr<crs>>",
 ]
-RULE = "crs::own_data: op sequences (construct / zero_copy view / copy / move / copy-assign / move-assign / destroy, ids 0..4) on amgcl::backend::crs<double> under a tracking allocator and under ASan+LSan vs the extracted Own.step; non-trivial = the sequence contains an effective copy/move between two objects.  Array-level kernels (ll_/lld_ ops: sort_rows, spgemm_saad, plain_aggregates, tentative_prolongation, ilu0; exact rationals and small-integer doubles; fixed degenerate inputs 0x0, 1x1, empty rows, diagonal, duplicates, positive off-diagonals, disconnected blocks, missing diagonal with an upper entry, zero pivots + generated ones): raw result arrays of amgcl vs the arrays of the extracted LowLevel2 models, again under 3-5 heap fills, under ASan+UBSan and with 3 OpenMP threads; non-trivial = a result with at least one stored entry.  Uninitialised output buffers (ub_ ops: spmv/residual/copy/clear/axpby/axpbypcz/vmul with zero coefficient, as_preconditioner<9 relaxations>::apply, amg::apply for 6 coarsening x relaxation pairs): 4 heap fills, bit patterns compared; non-trivial = a non-zero word in the output.  amg hierarchies (4 coarsenings x 5 relaxations) on generated SPD/non-symmetric systems and a fixed list of degenerate inputs (1x1, diagonal, disconnected, positive off-diagonals, n <= coarse_enough, max_levels = 1), each run under several heap fill patterns (double and exact builds) and under ASan+UBSan; non-trivial = non-zero output"
+RULE = "crs::own_data: op sequences (construct / zero_copy view / copy / move / copy-assign / move-assign / destroy, ids 0..4) on amgcl::backend::crs<double> under a tracking allocator and under ASan+LSan vs the extracted Own.step; non-trivial = the sequence contains an effective copy/move between two objects.  Array-level kernels (ll_/lld_ ops: sort_rows, spgemm_saad, plain_aggregates, tentative_prolongation, ilu0, skyline_lu; exact rationals and small-integer doubles; fixed degenerate inputs 0x0, 1x1, empty rows, diagonal, duplicates, positive off-diagonals, disconnected blocks, missing diagonal with an upper entry, zero pivots + generated ones): raw result arrays of amgcl vs the arrays of the extracted LowLevel2 models, again under 3-5 heap fills, under ASan+UBSan and with 3 OpenMP threads; non-trivial = a result with at least one stored entry.  Uninitialised output buffers (ub_ ops: spmv/residual/copy/clear/axpby/axpbypcz/vmul with zero coefficient, as_preconditioner<9 relaxations>::apply, amg::apply for 6 coarsening x relaxation pairs): 4 heap fills, bit patterns compared; non-trivial = a non-zero word in the output.  amg hierarchies (4 coarsenings x 5 relaxations) on generated SPD/non-symmetric systems and a fixed list of degenerate inputs (1x1, diagonal, disconnected, positive off-diagonals, n <= coarse_enough, max_levels = 1), each run under several heap fill patterns (double and exact builds) and under ASan+UBSan; non-trivial = non-zero output"
 
 def degenerate(r):
     """(name, n, rows) -- the degenerate inputs named by the property"""
@@ -337,7 +337,8 @@ LL2_NOMODEL = ("lld_ilu0", "lld_skyline")
 def run_ll2(ctx, lines):
     def kern(l): return l.split(" ", 2)[1].split("_", 1)[1]
     def nontrivial(op, payload, impl_out):
-        return impl_out is not None and impl_out.startswith("{") and "col=[]" not in impl_out
+        if impl_out is None or impl_out.startswith(("EXC", "ERR", "CRASH", "UNSUPPORTED", "BAD", "GLUE", "NOFACTORS")): return False
+        return "col=[]" not in impl_out.split(" U=")[0] if impl_out.startswith(("{", "L=")) else any(ch in "123456789" for ch in impl_out)
     fails, impl, model = diff_run(ctx, "ll2", lines, nontrivial=nontrivial, shards=8,
                                   theorem="C10-A2 correspondence: raw result arrays of the amgcl kernel vs the arrays of the array-level model with uninitialised cells (coq/LowLevel2*.v)")
     fails = [f for f in fails if f["op"] not in LL2_NOMODEL]
